@@ -5,6 +5,7 @@ import (
 	"fmt"
 	"io"
 	"reflect"
+	"strings"
 	"testing"
 
 	m2 "github.com/goark/go-cvss/v2/metric"
@@ -30,10 +31,17 @@ type op struct {
 	Obs    string `json:"obs,omitempty"`    // q: score | severity | geterror | encode | string
 	Field  string `json:"field,omitempty"`  // set: exported field name
 	Index  int    `json:"index,omitempty"`  // set: index of the code in the specification's list, -1 = unknown/invalid
+	// set: further fields assigned in the same step, with no query in between
+	More []fieldSet `json:"more_fields,omitempty"`
 	Lang   string `json:"lang,omitempty"`   // report
 	Ver    int    `json:"ver,omitempty"`    // noise
 	Level  int    `json:"level,omitempty"`  // noise
 	Vector string `json:"vector,omitempty"` // noise
+}
+
+type fieldSet struct {
+	Field string `json:"field"`
+	Index int    `json:"index"`
 }
 
 type opsCase struct {
@@ -468,6 +476,11 @@ var checkC15 = register("C15/ops", func(c opsCase) string {
 				}
 			}
 		}
+		if len(assigns) > 0 {
+			if m := roundTripConsistent(a, c); m != "" {
+				return fmt.Sprintf("after step %d (%+v) %s", step, o, m)
+			}
+		}
 		if heldReport != nil && len(assigns) == 0 {
 			if b, _ := json.Marshal(heldReport); string(b) != heldJSON {
 				return fmt.Sprintf("after step %d (%+v) a report built at the start changed its content: %s vs %s", step, o, b, heldJSON)
@@ -524,9 +537,14 @@ var checkC15 = register("C15/ops", func(c opsCase) string {
 			if !a.setField(o.Field, val) {
 				continue
 			}
+			assigns = append(assigns, o)
+			for _, m := range o.More { // several fields change before the next query
+				if v2, ok := fieldValue(c.Ver, m.Field, m.Index); ok && a.setField(m.Field, v2) {
+					assigns = append(assigns, op{Kind: "set", Field: m.Field, Index: m.Index})
+				}
+			}
 			im := a.snap()
 			immediate = &im
-			assigns = append(assigns, o)
 			reference = strip(twin().snap())
 		case "redecode":
 			// A further Decode on an object that has been decoded successfully before. The
@@ -588,6 +606,46 @@ var checkC15 = register("C15/ops", func(c opsCase) string {
 	return ""
 })
 
+// roundTripConsistent: an object whose exported fields were assigned after (or instead of)
+// a Decode and that declares itself valid must be the object its own encoding describes:
+// a fresh decoder of the same level fed a.Encode() must report the same scores, severities
+// and encodings at every view (C10's round trip, applied to objects reached by
+// assignment; C03 and C12 name assignment as a way to reach objects). Only the library is
+// compared with itself; nothing is asserted when the object is invalid, its encoding
+// fails, or a fresh decoder refuses the encoding.
+func roundTripConsistent(a subject, c opsCase) string {
+	vs := a.views()
+	if len(vs) == 0 {
+		return ""
+	}
+	top := vs[0]
+	if observe(top, "geterror") != "" {
+		return ""
+	}
+	enc := observe(top, "encode")
+	const okSuffix = "|"
+	if !strings.HasSuffix(enc, okSuffix) {
+		return ""
+	}
+	text := strings.TrimSuffix(enc, okSuffix)
+	fresh, ok := makeSubject(opsCase{Ver: c.Ver, Level: c.Level, Input: text, NilRecv: true})
+	if !ok {
+		return ""
+	}
+	fv := fresh.views()
+	if len(fv) != len(vs) {
+		return ""
+	}
+	for i := range vs {
+		for _, obs := range []string{"score", "severity", "encode"} {
+			if x, y := observe(vs[i], obs), observe(fv[i], obs); x != y {
+				return fmt.Sprintf("the object (fields assigned) encodes itself as %q, but a fresh decode of that text answers %s of view %s with %s where the object answers %s", text, obs, vs[i].name, y, x)
+			}
+		}
+	}
+	return ""
+}
+
 // parserCase: repeated parsing of one code must always give the same value (the parsers
 // iterate over maps, whose order is randomised).
 type parserCase struct {
@@ -634,7 +692,11 @@ func drawOps(rt *rapid.T, ver int, level spec.Level) []op {
 			if ver == 3 && rapid.IntRange(0, 7).Draw(rt, "setver") == 0 {
 				f = "Ver"
 			}
-			ops = append(ops, op{Kind: "set", Field: f, Index: rapid.IntRange(-1, 4).Draw(rt, "index")})
+			o := op{Kind: "set", Field: f, Index: rapid.IntRange(-1, 4).Draw(rt, "index")}
+			for nm := rapid.SampledFrom([]int{0, 0, 0, 1, 1, 2, 3}).Draw(rt, "morefields"); nm > 0; nm-- {
+				o.More = append(o.More, fieldSet{Field: rapid.SampledFrom(fields).Draw(rt, "field2"), Index: rapid.IntRange(0, 4).Draw(rt, "index2")})
+			}
+			ops = append(ops, o)
 		case k < 17:
 			var vec string
 			if rapid.IntRange(0, 3).Draw(rt, "redecodeinvalid") == 0 {
@@ -692,6 +754,60 @@ func TestC15(t *testing.T) {
 							cs := opsCase{Ver: ver, Level: 2, PreQuery: mode == 1, FieldBuilt: mode == 2, Input: vec, Ops: []op{{Kind: "snapshot"}, {Kind: "set", Field: name, Index: idx}, {Kind: "snapshot"}, {Kind: "report", Lang: ""}}}
 							c.rec.Case("query-set-query-sweep", fmt.Sprintf("%+v", cs), true, "sweep:query-set-query")
 							evalEnum(c, "ops", cs, checkC15, &nviol)
+						}
+					}
+				}
+			}
+		}
+	}
+	// ---- pairwise transition sweep: for every decoder level of both versions, two full
+	// vectors with different values everywhere; one context metric g takes each of its values,
+	// then the decoded object is observed, one other field f is assigned each of its values,
+	// and the object is observed again (twin, immediate observation and the round trip through
+	// its own encoding). Reaches defects that need "f changes while g has one particular value".
+	{
+		i := 0
+		for _, ver := range []int{3, 2} {
+			for _, lv := range []spec.Level{spec.Base, spec.Temporal, spec.Environmental} {
+				ms := spec.UpTo(spec.V3Metrics, lv)
+				if ver == 2 {
+					ms = spec.UpTo(spec.V2Metrics, lv)
+				}
+				for variant := 0; variant < 2; variant++ {
+					pickCode := func(m *spec.Metric) string {
+						if variant == 0 {
+							return m.Codes[len(m.Codes)-1]
+						}
+						return m.Codes[(len(m.Codes)-1)/2]
+					}
+					for _, g := range ms {
+						for _, gb := range g.Codes {
+							v := spec.Vec{}
+							if ver == 3 {
+								v.Ver = spec.V3Versions[variant]
+							}
+							for _, m := range ms {
+								code := pickCode(m)
+								if m == g {
+									code = gb
+								}
+								v.Toks = append(v.Toks, spec.Tok{Name: m.Name, Value: code})
+							}
+							vec := v.String()
+							for _, f := range ms {
+								if f == g {
+									continue
+								}
+								for idx := range f.Codes {
+									i++
+									if nviol > 0 || !mine(i) {
+										continue
+									}
+									cs := opsCase{Ver: ver, Level: int(lv), Input: vec, Ops: []op{{Kind: "snapshot"}, {Kind: "set", Field: f.Name, Index: idx}}}
+									c.rec.Case("pairwise-transition-sweep", fmt.Sprintf("%+v", cs), true, "sweep:pairwise-transition")
+									evalEnum(c, "ops", cs, checkC15, &nviol)
+								}
+							}
 						}
 					}
 				}
